@@ -160,6 +160,18 @@ def build(cfg, learner_classes=None):
     elif name == "DOO":
         d = delta_fn(p.pop("delta", None))
         algo = cls(domain=domain, partition=pc, delta=d, **p)
+    elif name in ("PCT", "VPCT") and learner_classes:
+        # PCT/VPCT look up HCT/VHCT in their own module at construction time
+        import importlib
+
+        mod = importlib.import_module("PyXAB.algos." + name)
+        base = "HCT" if name == "PCT" else "VHCT"
+        orig = getattr(mod, base)
+        setattr(mod, base, learner_classes.get(base, orig))
+        try:
+            algo = cls(domain=domain, partition=pc, **p)
+        finally:
+            setattr(mod, base, orig)
     else:
         algo = cls(domain=domain, partition=pc, **p)
     return algo, domain
